@@ -118,8 +118,16 @@ void vf::run_case(Src &s, Ctx &c)
     }
     // PDST re-derives the interior of a split motion by interpolating between the split points again; on Dubins that is a different
     // (known-finding) failure family from anything it does elsewhere, so the space family is part of its key
+    // The same holds for the other planners that keep the valid part of a failed motion (KPIECE1, STRIDE, RLRT): the motion they store
+    // ends at the last valid state and is interpolated afresh later, which presumes that a prefix of a curve is the curve to its end
+    // point - the curve families break that (C14 prefix findings, Dubins discontinuity).
+    static const char *partial[] = {"PDST", "KPIECE1", "STRIDE", "RLRT"};
+    bool usesPartialMotions = false;
+    for (auto *n : partial)
+        if (std::string(pi.name) == n)
+            usesPartialMotions = true;
     const std::string pkey = std::string("/") + pi.name +
-                             (std::string(pi.name) == "PDST" && P->ps.curveFamily() ? (P->ps.kind == SP_DUBINS ? "(Dubins)" : "(ReedsShepp)") : "");
+                             (usesPartialMotions && P->ps.curveFamily() ? (P->ps.kind == SP_DUBINS ? "(Dubins)" : "(ReedsShepp)") : "");
     size_t nsol = P->pdef->getSolutionCount();
     if (rejected)
     {
